@@ -11,6 +11,8 @@ import (
 	"fmt"
 	"net/netip"
 	"os"
+	"runtime"
+	"strconv"
 	"sort"
 	"sync"
 	"testing"
@@ -210,8 +212,9 @@ func (w *spWorld) addrName(s string) string {
 func (w *spWorld) fold(name string) {
 	p := w.peers[name]
 	view := w.views[name]
+	cur := p.curSession()
 	for _, m := range p.take() {
-		if m.Msg == nil || m.Msg.Header.Type != bgp.BGP_MSG_UPDATE {
+		if m.Msg == nil || m.Msg.Header.Type != bgp.BGP_MSG_UPDATE || m.Sess != cur {
 			continue
 		}
 		u := m.Msg.Body.(*bgp.BGPUpdate)
@@ -352,6 +355,11 @@ func (w *spWorld) sessionUp(name string) bool {
 }
 
 func (w *spWorld) step(st spStep) {
+	w.stepNoWait(st)
+	synctest.Wait()
+}
+
+func (w *spWorld) stepNoWait(st spStep) {
 	switch st.Ev {
 	case "Up":
 		w.sessionUp(st.P)
@@ -402,7 +410,6 @@ func (w *spWorld) step(st spStep) {
 	default:
 		w.t.Fatalf("unknown step %q", st.Ev)
 	}
-	synctest.Wait()
 }
 
 // policies of the closed family of Speaker.tla (all conditions on prefix x1)
@@ -548,3 +555,177 @@ func TestVerifC01(t *testing.T) {
 }
 
 var _ = table.GLOBAL_RIB_NAME
+
+
+// ---------------------------------------------------------------------------------------
+// free-running mode: every neighbour and the API client execute their own part of the schedule
+// CONCURRENTLY (no global quiescence between steps). Only the final, settled state is observed;
+// it is a function of the per-source histories alone, so the trace lists the events actor by
+// actor (each actor's own order preserved) followed by the final observation.
+
+func (w *spWorld) waitUntil(cond func() bool, maxMs int) bool {
+	for i := 0; i < maxMs; i++ {
+		if cond() {
+			return true
+		}
+		time.Sleep(time.Millisecond)
+	}
+	return cond()
+}
+
+func (w *spWorld) freeSessionUp(name string) {
+	sp := w.peers[name]
+	w.waitUntil(func() bool {
+		st, _, _ := w.ss.peerState(sp.addr.String())
+		return st == api.PeerState_SESSION_STATE_ACTIVE
+	}, 40000)
+	w.gateMu.Lock()
+	w.views[name] = map[string]map[string]any{}
+	w.gateMu.Unlock()
+	sp.take()
+	sp.connect()
+	_ = sp.send(sp.defaultOpen(0, []bgp.Family{bgp.RF_IPv4_UC}))
+	sp.setOptions(&bgp.MarshallingOption{}, &bgp.MarshallingOption{})
+	_ = sp.send(bgp.NewBGPKeepAliveMessage())
+	w.waitUntil(func() bool {
+		st, _, _ := w.ss.peerState(sp.addr.String())
+		return st == api.PeerState_SESSION_STATE_ESTABLISHED
+	}, 5000)
+}
+
+func (w *spWorld) freeStep(st spStep) {
+	switch st.Ev {
+	case "Up":
+		w.freeSessionUp(st.P)
+	case "Down":
+		w.peers[st.P].closeConn()
+		sp := w.peers[st.P]
+		w.waitUntil(func() bool {
+			s, _, _ := w.ss.peerState(sp.addr.String())
+			return s != api.PeerState_SESSION_STATE_ESTABLISHED
+		}, 5000)
+	default:
+		w.stepNoWait(st)
+	}
+}
+
+func spRunFree(t *testing.T, tr *vpTrace, tid int, b *spBehaviour, seed int64) {
+	synctest.Test(t, func(t *testing.T) {
+		w := &spWorld{t: t, b: b, peers: map[string]*simPeer{}, pinfo: b.Peers, views: map[string]map[string]map[string]any{},
+			byAddr: map[string]string{}, byRid: map[string]string{}, gates: map[string]chan struct{}{}, srvPeers: map[string]*peer{}}
+		rng := newSplitMix(uint64(seed)*7919 + uint64(tid))
+		var rmu sync.Mutex
+		VerifYieldHook = func(site, peer string) {
+			rmu.Lock()
+			r := rng.next() % 4
+			rmu.Unlock()
+			if r == 0 {
+				runtime.Gosched()
+			}
+		}
+		defer func() { VerifYieldHook = nil }()
+		w.ss = newSimServer(t, &api.Global{Asn: b.LocalAS})
+		names := make([]string, 0, len(b.Peers))
+		for n, pi := range b.Peers {
+			names = append(names, n)
+			w.byAddr[spAddr(pi.Idx)] = n
+			w.byRid[spRid(pi.Idx)] = n
+		}
+		sort.Strings(names)
+		for _, n := range names {
+			w.addPeer(n)
+		}
+		w.definePolicies()
+		synctest.Wait()
+		// split the schedule per actor
+		actors := map[string][]spStep{}
+		order := append([]string{}, names...)
+		order = append(order, "api")
+		policy := false
+		for _, st := range b.Steps {
+			a := st.P
+			switch st.Ev {
+			case "ApiAdd", "ApiDel", "SetImp", "SetExp", "ResetIn", "ResetOut", "ResetBoth":
+				a = "api"
+			case "UpHold", "Release", "Tick":
+				continue
+			}
+			if st.Ev == "SetImp" || st.Ev == "SetExp" {
+				policy = true
+			}
+			actors[a] = append(actors[a], st)
+		}
+		var wg sync.WaitGroup
+		for _, a := range order {
+			steps := actors[a]
+			wg.Add(1)
+			go func() {
+				defer wg.Done()
+				for _, st := range steps {
+					w.freeStep(st)
+				}
+			}()
+		}
+		wg.Wait()
+		for _, n := range names {
+			w.peers[n].resume()
+		}
+		synctest.Wait()
+		tr.Emit(map[string]any{"ev": "Reset", "tid": tid, "peers": b.Peers, "mode": "free"})
+		for _, a := range order {
+			for _, st := range actors[a] {
+				row := map[string]any{"ev": st.Ev}
+				if st.P != "" {
+					row["p"] = st.P
+				}
+				if st.X != "" {
+					row["x"] = st.X
+				}
+				if st.Ev == "Ann" || st.Ev == "ApiAdd" {
+					row["r"] = st.R
+				}
+				if st.Pol != "" {
+					row["pol"] = st.Pol
+				}
+				tr.Emit(row)
+			}
+		}
+		if policy {
+			w.softReset("all", api.ResetPeerRequest_DIRECTION_BOTH)
+			synctest.Wait()
+			tr.Emit(map[string]any{"ev": "ResetBoth", "p": "all"})
+		}
+		tr.Emit(map[string]any{"ev": "Settle", "obs": w.observe()})
+		w.ss.stop()
+		for _, n := range names {
+			w.peers[n].closeConn()
+		}
+		synctest.Wait()
+	})
+}
+
+type splitMix struct{ s uint64 }
+
+func newSplitMix(seed uint64) *splitMix { return &splitMix{s: seed} }
+func (r *splitMix) next() uint64 {
+	r.s += 0x9e3779b97f4a7c15
+	z := r.s
+	z = (z ^ (z >> 30)) * 0xbf58476d1ce4e5b9
+	z = (z ^ (z >> 27)) * 0x94d049bb133111eb
+	return z ^ (z >> 31)
+}
+
+func TestVerifFree(t *testing.T) {
+	tr := vpOpenTrace(t)
+	defer tr.Close()
+	seed, _ := strconv.ParseInt(os.Getenv("VERIF_SEED"), 10, 64)
+	tid := 0
+	vpReadLines(t, "VERIF_IN", func(line []byte) {
+		var b spBehaviour
+		if err := json.Unmarshal(line, &b); err != nil {
+			t.Fatalf("bad behaviour: %v", err)
+		}
+		tid++
+		spRunFree(t, tr, tid, &b, seed)
+	})
+}
